@@ -13,7 +13,7 @@ META = {
                    'master-equation generator obtained by state enumeration (cut-point chain over the one SVD per bond); corollaries decided on the same '
                    'terms: all column sums vanish identically, every off-diagonal entry is a sum of rates (non-negative for positive rates). Open and cyclic '
                    'chains, equal and different cell sizes, homogeneous shortcut. ulam_2d/ulam_3d: integer transition tables are concrete (enumerated, NOT '
-                   'solver-decided -- the tables drive np.unique); the number of simulations is symbolic and every matricised entry equals count/simulations.',
+                   'solver-decided -- the tables drive np.unique); the number of simulations is symbolic and every matricised entry equals count/simulations. Reaction lists in which the same elementary transition occurs more than once (independent mechanisms) and null reactions are part of the grid.',
     'bounds': {'quick': 'chains of 2-3 cells with sizes in {2,3,4} (equal and different), 0-2 single-cell and 0-2 two-cell reactions per cell/bond drawn from all '
                         'in-range (reactant, product) pairs by a deterministic stride, open and cyclic; Ulam: all tables with <= 2 transitions on a 2x2 grid (2d), '
                         'a stride through <= 3 transitions (2d) and <= 2 transitions on 2x2x2 (3d)',
